@@ -197,15 +197,26 @@ def build_and_prove(ctx: Ctx, mod) -> bool:
         if not r["ok"]:
             ok = False
             broken_stmts = r["errors"]
-        pr = core.compile_properties(ctx.prop) if r["ok"] else {"ok": False, "theorems": [], "assumptions": {}, "errors": []}
-        if r["ok"] and not pr["ok"]:
-            ok = False
-            broken_stmts = pr["errors"]
-        hits = core.forbidden_scan(ctx.prop)
-        ctx.extra["cone_files"] = len(core.cone(f"Properties/{ctx.prop}.v"))
-        if hits:
-            ok = False
-            broken_stmts = broken_stmts + [{"file": h.split(":")[0], "line": 0, "stmt": "forbidden-token", "msg": h} for h in hits[:5]]
+    # the statement file is re-compiled (Print Assumptions) into a private directory outside the lock: it only reads the shared
+    # tree; if a concurrent build disturbed it, once more under the lock
+    pr = core.compile_properties(ctx.prop) if r["ok"] else {"ok": False, "theorems": [], "assumptions": {}, "errors": []}
+    if r["ok"] and not pr["ok"]:
+        with core.build_lock():
+            r2 = core.make([f"Properties/{ctx.prop}.vo"])
+            if r2["ok"]:
+                pr = core.compile_properties(ctx.prop)
+            else:
+                r = r2
+                ok = False
+                broken_stmts = r2["errors"]
+    if r["ok"] and not pr["ok"]:
+        ok = False
+        broken_stmts = pr["errors"]
+    hits = core.forbidden_scan(ctx.prop)
+    ctx.extra["cone_files"] = len(core.cone(f"Properties/{ctx.prop}.v"))
+    if hits:
+        ok = False
+        broken_stmts = broken_stmts + [{"file": h.split(":")[0], "line": 0, "stmt": "forbidden-token", "msg": h} for h in hits[:5]]
     ths = pr["theorems"] if pr["theorems"] else _declared_theorems(ctx.prop)
     for th in ths:
         discharged = r["ok"] and pr["ok"] and th in pr["assumptions"]
